@@ -23,32 +23,62 @@ def sh(cmd):
     return subprocess.run(cmd, shell=True, capture_output=True, text=True)
 
 
+def run_one(meta_path, base_repo, private):
+    meta = json.load(open(meta_path))
+    sid = meta['id']
+    patch = os.path.join(os.path.dirname(meta_path), 'patch.diff')
+    checks = sorted(set([meta['property']] + meta.get('caught_by', [])))
+    repo = base_repo
+    if private:
+        repo = '/tmp/rs-{}-{}'.format(sid, os.getpid())
+        a = sh('git -C {} worktree add --detach {} HEAD'.format(base_repo, repo))
+        if a.returncode != 0:
+            return sid, None, 'worktree: ' + a.stderr[-200:]
+    try:
+        if sh('git -C {} apply {}'.format(repo, patch)).returncode != 0:
+            return sid, None, 'PATCH DOES NOT APPLY'
+        verdicts = {}
+        for cid in checks:
+            p = sh('cd {} && SPOWTD_REPO={} ./check {} {} --seed {}'.format(HERE, repo, cid, os.environ.get('TIER', 'quick'), os.environ.get('VERIF_SEED', '0')))
+            verdicts[cid] = {0: 'held', 1: 'VIOLATION', 2: 'inconclusive'}.get(p.returncode, str(p.returncode))
+            if verdicts[cid] == 'VIOLATION' and os.environ.get('STOP_AT_FIRST', '1') == '1':
+                break
+        return sid, verdicts, None
+    finally:
+        if private:
+            sh('git -C {} worktree remove --force {}'.format(base_repo, repo))
+        else:
+            sh('git -C {} checkout -- .'.format(repo))
+
+
 def main():
-    select = sys.argv[1:]
+    """usage: run_seeded.py [--jobs N] [id-substring ...]; with --jobs > 1 every change is applied in a
+    private detached worktree of $SPOWTD_REPO (default /repo), which itself is never touched"""
+    args = sys.argv[1:]
+    jobs = 1
+    if '--jobs' in args:
+        i = args.index('--jobs')
+        jobs = int(args[i + 1])
+        del args[i:i + 2]
+    select = args
     assert sh('git -C {} diff --quiet'.format(REPO)).returncode == 0, REPO + ' has local changes'
-    missed = []
+    metas = []
     for meta_path in sorted(glob.glob(os.path.join(HERE, 'seeded', '*', 'meta.json'))):
-        meta = json.load(open(meta_path))
-        sid = meta['id']
+        sid = json.load(open(meta_path))['id']
         if select and not any(s in sid for s in select):
             continue
-        patch = os.path.join(os.path.dirname(meta_path), 'patch.diff')
-        checks = sorted(set([meta['property']] + meta.get('caught_by', [])))
-        if sh('git -C {} apply {}'.format(REPO, patch)).returncode != 0:
-            print('{:8s} PATCH DOES NOT APPLY'.format(sid))
-            missed.append(sid)
-            continue
-        try:
-            verdicts = {}
-            for cid in checks:
-                p = sh('cd {} && ./check {} {}'.format(HERE, cid, os.environ.get('TIER', 'quick')))
-                verdicts[cid] = {0: 'held', 1: 'VIOLATION', 2: 'inconclusive'}.get(p.returncode, str(p.returncode))
-        finally:
-            sh('git -C {} checkout -- .'.format(REPO))
-        caught = [c for c, v in verdicts.items() if v == 'VIOLATION']
-        print('{:8s} {}'.format(sid, ' '.join('{}={}'.format(c, v) for c, v in verdicts.items())), flush=True)
-        if not caught:
-            missed.append(sid)
+        metas.append(meta_path)
+    missed = []
+    import concurrent.futures
+    with concurrent.futures.ThreadPoolExecutor(max_workers=jobs) as pool:
+        for sid, verdicts, error in pool.map(lambda m: run_one(m, REPO, jobs > 1), metas):
+            if error:
+                print('{:8s} {}'.format(sid, error), flush=True)
+                missed.append(sid)
+                continue
+            print('{:8s} {}'.format(sid, ' '.join('{}={}'.format(c, v) for c, v in verdicts.items())), flush=True)
+            if not any(v == 'VIOLATION' for v in verdicts.values()):
+                missed.append(sid)
     print('missed:', missed)
     return 1 if missed else 0
 
